@@ -16,6 +16,10 @@ import (
 // hash into different buckets (their 10-significant-digit texts differ)
 var c13IncoherentPairs = [][2]cty.Value{
 	{cty.NumberFloatVal(3.9477794105), cty.MustParseNumberVal("3.9477794105")},
+	// pairs whose bucket order (hash ascending) disagrees with their exact numeric order: in a set holding
+	// both, setRules.Less answers false both ways (RawEquals), so the iteration order is the bucket order
+	{cty.NumberFloatVal(9.3350578075), cty.MustParseNumberVal("9.3350578075")},
+	{cty.NumberFloatVal(7.5953385255), cty.MustParseNumberVal("7.5953385255")},
 }
 
 func c13D13(ctx *Ctx) {
@@ -72,6 +76,14 @@ func c13D13Incoherent(ctx *Ctx) {
 			continue
 		}
 		sa, sb := cty.SetVal([]cty.Value{a}), cty.SetVal([]cty.Value{b})
+		// a set holding BOTH (two Equals-equal members): its iteration order is the bucket order, because
+		// setRules.Less answers false both ways for RawEquals members (correspondence only)
+		both := cty.SetVal([]cty.Value{a, b})
+		c13Case(ctx, "reverse", []cty.Value{both}, false)
+		c13Case(ctx, "setunion", []cty.Value{both, sa}, false)
+		c13Case(ctx, "setproduct", []cty.Value{both, both}, false)
+		c13Case(ctx, "contains", []cty.Value{both, a}, false)
+		ctx.Tag("d13:incoherent:two-equal-members-in-one-set")
 		for _, name := range []string{"setunion", "setintersection", "setsubtract", "setsymmetricdifference", "sethaselement"} {
 			args := []cty.Value{sa, sb}
 			if name == "sethaselement" {
